@@ -15,6 +15,7 @@ EXTENDS GrlExpr
 
 \* locations: name (the harness maps it to a GRL path and a Go / JSON / context place), kind, initial value
 L(n, k, v) == [n |-> n, k |-> k, v |-> v]
+TM(k) == [t |-> "t", n |-> k]                     \* a point in time: MakeTime(2020, 1, 1, 0, 0, k)
 IntKinds == {"int", "int8", "int16", "int32", "int64"}
 UintKinds == {"uint", "uint8", "uint16", "uint32", "uint64"}
 FloatKinds == {"float32", "float64"}
@@ -25,9 +26,11 @@ Locs == { L("F.I8", "int8", I(5)), L("F.I16", "int16", I(6)), L("F.I32", "int32"
           L("F.P.U16", "uint16", I(22)), L("F.P.B", "bool", B(FALSE)),
           L("F.PI", "int64", I(30)), L("F.PF", "float64", R(9, 2)),                       \* *int64, *float64 fields
           L("F.AI[0]", "int64", I(40)), L("F.AI[1]", "int64", I(41)), L("F.AF[1]", "float64", R(11, 2)), L("F.A8[0]", "int8", I(42)),
-          L("F.AU[1]", "uint16", I(43)), L("F.AS[0]", "string", S("e")),
+          L("F.AU[1]", "uint16", I(43)), L("F.AS[0]", "string", S("e")), L("F.AS[1]", "string", S("f")),
           L("F.MI[a]", "mapint64", I(50)), L("F.MI[b]", "mapint64", I(51)), L("F.MF[a]", "mapfloat64", R(13, 2)), L("F.MS[a]", "mapstring", S("m")),
           L("J.n", "json", R(60, 1)), L("J.s", "json", S("j")), L("J.b", "json", B(TRUE)), L("J.o.n", "json", R(61, 1)), L("J.a[1]", "json", R(62, 1)),
+          L("F.AV[0]", "uint64", I(44)), L("F.AV[1]", "uint64", I(45)), L("F.MU[a]", "mapuint64", I(52)),
+          L("F.T", "time", TM(1)), L("F.P.T", "time", TM(2)),
           L("N", "ctx", I(70)), L("Q", "ctx", R(15, 2)), L("T", "ctx", S("t")) }
 Names == {l.n : l \in Locs}
 KindOf == [n \in Names |-> (CHOOSE l \in Locs : l.n = n).k]
@@ -37,8 +40,10 @@ Lo == [k \in IntKinds \cup UintKinds |-> CASE k = "int8" -> -128 [] k = "int16" 
 Hi == [k \in IntKinds \cup UintKinds |-> CASE k = "int8" -> 127 [] k = "int16" -> 32767 [] k = "uint8" -> 255 [] k = "uint16" -> 65535 [] OTHER -> 1000000]
 Trunc(n, d) == IF n >= 0 THEN n \div d ELSE -((-n) \div d)       \* toward zero
 \* what a location of kind k holds after v is assigned to it; Err when the engine refuses, Skip outside the property's domain
+MapKinds == {"mapint64", "mapuint64", "mapfloat64", "mapstring"}
 Convert(k, v) ==
   IF v \in {Err, Skip} THEN v
+  ELSE IF k = "time" \/ v.t = "t" THEN (IF v.t = "t" /\ k \in {"time", "ctx"} THEN v ELSE Skip)
   ELSE IF k \in IntKinds \cup UintKinds THEN
        (IF ~IsNum(v) THEN Skip
         ELSE LET n == IF v.t = "i" THEN v.n ELSE Trunc(v.n, v.d) IN
@@ -46,7 +51,7 @@ Convert(k, v) ==
   ELSE IF k \in FloatKinds THEN (IF ~IsNum(v) THEN Skip ELSE R(Num(v), Den(v)))
   ELSE IF k = "string" THEN (IF v.t = "s" THEN v ELSE Skip)
   ELSE IF k = "bool" THEN (IF v.t = "b" THEN v ELSE Skip)
-  ELSE IF k \in {"mapint64", "mapfloat64", "mapstring"} THEN v      \* (the Go kind of the value is checked in Assign)
+  ELSE IF k \in MapKinds THEN v      \* (the Go kind of the value is checked in Assign)
   ELSE v                                                                                        \* json member, context variable: the value as it is
 
 FormOp == [set |-> "set", add |-> "add", sub |-> "sub", mul |-> "mul", div |-> "div"]
@@ -61,24 +66,34 @@ EvalRhs(r, st) == CASE r.k = "c" -> r.v
 \* Go kind of what a location holds: fixed for struct fields, slice and map elements; the kind of the last value
 \* stored for JSON members and context variables
 GoKind0 == [n \in Names |-> LET k == KindOf[n] IN
-              CASE k = "mapint64" -> "int64" [] k = "mapfloat64" -> "float64" [] k = "mapstring" -> "string"
+              CASE k = "mapint64" -> "int64" [] k = "mapuint64" -> "uint64" [] k = "mapfloat64" -> "float64" [] k = "mapstring" -> "string"
                 [] k \in {"json", "ctx"} -> (LET v == Store0[n] IN CASE v.t = "i" -> "int64" [] v.t = "r" -> "float64" [] v.t = "s" -> "string" [] v.t = "b" -> "bool")
                 [] OTHER -> k]
-TagKind(v) == CASE v.t = "i" -> "int64" [] v.t = "r" -> "float64" [] v.t = "s" -> "string" [] v.t = "b" -> "bool" [] OTHER -> "none"
+TagKind(v) == CASE v.t = "i" -> "int64" [] v.t = "r" -> "float64" [] v.t = "s" -> "string" [] v.t = "b" -> "bool" [] v.t = "t" -> "time" [] OTHER -> "none"
+\* Go kind of an arithmetic result (pkg/reflectmath.go): float64 if either side is a float, uint64 if both are unsigned, else int64
+BaseKind(k) == IF k \in UintKinds THEN "uint64" ELSE IF k \in IntKinds THEN "int64" ELSE IF k \in FloatKinds THEN "float64" ELSE k
+ArithKind(a, b) == IF "float64" \in {BaseKind(a), BaseKind(b)} THEN "float64"
+                   ELSE IF BaseKind(a) = "uint64" /\ BaseKind(b) = "uint64" THEN "uint64" ELSE "int64"
 SrcKind(r, v, gk) == IF r.k = "r" THEN gk[r.n] ELSE TagKind(v)        \* constants and arithmetic results are int64 / float64
-ElemKind(k) == CASE k = "mapint64" -> "int64" [] k = "mapfloat64" -> "float64" [] k = "mapstring" -> "string"
+ElemKind(k) == CASE k = "mapint64" -> "int64" [] k = "mapuint64" -> "uint64" [] k = "mapfloat64" -> "float64" [] k = "mapstring" -> "string"
 
 \* one assignment on state s = [st, gk]: the new state, Err (the engine returns an error and the action list stops), or Skip
 Assign(a, s) ==
   LET st == s.st
       v == EvalRhs(a.rhs, st)
-      combined == IF a.form = "set" THEN v ELSE Apply(a.form, st[a.t], v)
+      timed == a.form # "set" /\ (v \notin {Err, Skip} /\ "t" \in {v.t, st[a.t].t})         \* no arithmetic on points in time here
+      combined == IF a.form = "set" THEN v ELSE IF timed THEN Skip ELSE Apply(a.form, st[a.t], v)
       new == Convert(KindOf[a.t], combined)
       k == KindOf[a.t]
-      vk == IF a.form = "set" THEN SrcKind(a.rhs, v, s.gk) ELSE TagKind(combined)
+      sk == SrcKind(a.rhs, v, s.gk)
+      vk == IF a.form = "set" THEN sk
+            ELSE IF combined \notin {Err, Skip} /\ IsNum(combined) /\ IsNum(st[a.t]) /\ IsNum(v)
+                 THEN (IF a.form = "div" THEN "float64" ELSE ArithKind(s.gk[a.t], sk))            \* a quotient is always a float64
+            ELSE TagKind(combined)
+      numk == {"int64", "uint64", "float64"}
   IN IF new \in {Err, Skip} THEN new
-     ELSE IF k \in {"mapint64", "mapfloat64", "mapstring"} /\ vk # ElemKind(k)
-          THEN (IF TagKind(new) \in {"int64", "float64"} /\ ElemKind(k) \in {"int64", "float64"} THEN Err ELSE Skip)   \* a map entry takes exactly its element type
+     ELSE IF k \in MapKinds /\ vk # ElemKind(k)
+          THEN (IF (BaseKind(vk) \in numk) /\ ElemKind(k) \in numk THEN Err ELSE Skip)   \* a map entry takes exactly its element type
      ELSE [st |-> [st EXCEPT ![a.t] = new], gk |-> IF k \in {"json", "ctx"} THEN [s.gk EXCEPT ![a.t] = vk] ELSE s.gk]
 
 S0 == [st |-> Store0, gk |-> GoKind0]
@@ -88,7 +103,7 @@ VARIABLE case
 Single == \E t \in Names, f \in Forms, r \in Rhs :
             LET a == Asg(t, f, r)  s1 == Assign(a, S0) IN
             /\ s1 # Skip
-            /\ case = [fam |-> "single", acts |-> <<a>>, want |-> IF s1 = Err THEN [err |-> TRUE, store |-> Store0] ELSE [err |-> FALSE, store |-> s1.st]]
+            /\ case = [fam |-> "single", scale |-> 0, acts |-> <<a>>, want |-> IF s1 = Err THEN [err |-> TRUE, store |-> Store0] ELSE [err |-> FALSE, store |-> s1.st]]
 \* the second right-hand side reads the first target (directly, compound, or inside an expression)
 FirstTargets == {"F.I8", "F.I64", "F.U16", "F.F32", "F.F64", "F.P.I64", "F.AI[0]", "F.MI[a]", "J.n", "J.a[1]", "N", "Q"}
 Pair == \E t1 \in FirstTargets, f1 \in {"set", "add", "mul"}, r1 \in {[k |-> "c", v |-> I(3)], [k |-> "c", v |-> R(3, 2)], [k |-> "r", n |-> "F.I16"]},
@@ -99,9 +114,44 @@ Pair == \E t1 \in FirstTargets, f1 \in {"set", "add", "mul"}, r1 \in {[k |-> "c"
                 s1 == Assign(a1, S0)
                 s2 == IF s1 \in {Err, Skip} THEN s1 ELSE Assign(a2, s1)
             IN /\ s1 \notin {Err, Skip} /\ s2 # Skip
-               /\ case = [fam |-> "pair", acts |-> <<a1, a2>>,
+               /\ case = [fam |-> "pair", scale |-> 0, acts |-> <<a1, a2>>,
                           want |-> IF s2 = Err THEN [err |-> TRUE, store |-> s1.st] ELSE [err |-> FALSE, store |-> s2.st]]   \* effects of completed actions stay
-Init == Single \/ Pair
+\* Values beyond 2^53: the same algebra on 64-bit integer places, every integer multiplied by M = 2^53 + 1 by the
+\* harness (set, add and sub are linear, so the expected store is the model's store times M).
+BigLocs == {"F.I64", "F.I", "F.U64", "F.U", "F.P.I64", "F.PI", "F.AI[0]", "F.AI[1]", "F.AV[0]", "F.AV[1]", "F.MI[a]", "F.MI[b]", "F.MU[a]", "N"}
+BigRhs == {[k |-> "c", v |-> I(3)]} \cup {[k |-> "r", n |-> n] : n \in BigLocs \ {"F.PI"}}      \* (a bare *int64 is not a number source)
+          \cup {[k |-> "x", n |-> n, op |-> o, c |-> I(2)] : n \in BigLocs, o \in {"add", "sub"}}
+InBig(s) == \A n \in BigLocs : s.st[n].t = "i" /\ s.st[n].n >= -1000 /\ s.st[n].n <= 1000
+Scaled == \E t1 \in BigLocs, f1 \in {"set", "add", "sub"}, r1 \in BigRhs :
+            LET a == Asg(t1, f1, r1)  s1 == Assign(a, S0) IN
+            /\ s1 # Skip /\ (s1 # Err => InBig(s1))
+            /\ case = [fam |-> "scaled", scale |-> 1, acts |-> <<a>>, want |-> IF s1 = Err THEN [err |-> TRUE, store |-> Store0] ELSE [err |-> FALSE, store |-> s1.st]]
+ScaledPair == \E t1 \in BigLocs \ {"F.PI"}, f1 \in {"set", "add", "sub"}, r1 \in {[k |-> "c", v |-> I(3)], [k |-> "r", n |-> "F.I64"], [k |-> "r", n |-> "F.U64"]},
+                 t2 \in BigLocs, f2 \in {"set", "add"} :
+            LET a1 == Asg(t1, f1, r1)
+                a2 == Asg(t2, f2, [k |-> "r", n |-> t1])
+                s1 == Assign(a1, S0)
+                s2 == IF s1 \in {Err, Skip} THEN s1 ELSE Assign(a2, s1)
+            IN /\ s1 \notin {Err, Skip} /\ s2 # Skip /\ InBig(s1) /\ (s2 # Err => InBig(s2))
+               /\ case = [fam |-> "scaledpair", scale |-> 1, acts |-> <<a1, a2>>,
+                          want |-> IF s2 = Err THEN [err |-> TRUE, store |-> s1.st] ELSE [err |-> FALSE, store |-> s2.st]]
+\* Copy semantics: x takes the value of a, then a is overwritten, then y takes the value of x - x still holds what a
+\* held before (no place is a view of another place), for every shape of x, a and y.
+AX == {"N", "Q", "T", "F.I64", "F.P.I64", "J.n", "F.AI[0]", "F.MI[a]", "F.S", "F.F64", "F.P.T", "F.U64", "F.AS[1]"}
+AA == {"F.I64", "F.P.I64", "F.AI[1]", "F.F64", "F.S", "F.P.S", "F.MI[b]", "J.n", "J.s", "F.I8", "F.AS[0]", "F.T", "N", "F.AV[0]"}
+AY == {"F.I64", "F.F64", "F.S", "J.o.n", "F.P.I64", "F.T", "Q"}
+Copy == \E x \in AX, a \in AA, f2 \in {"set", "add"}, y \in AY,
+           r2 \in {[k |-> "c", v |-> I(3)], [k |-> "c", v |-> R(3, 2)], [k |-> "c", v |-> S("x")], [k |-> "r", n |-> "F.I16"], [k |-> "r", n |-> "F.P.S"], [k |-> "r", n |-> "F.P.T"]} :
+            LET a1 == Asg(x, "set", [k |-> "r", n |-> a])
+                a2 == Asg(a, f2, r2)
+                a3 == Asg(y, "set", [k |-> "r", n |-> x])
+                s1 == Assign(a1, S0)
+                s2 == IF s1 \in {Err, Skip} THEN s1 ELSE Assign(a2, s1)
+                s3 == IF s2 \in {Err, Skip} THEN s2 ELSE Assign(a3, s2)
+            IN /\ s1 \notin {Err, Skip} /\ s2 \notin {Err, Skip} /\ s3 # Skip /\ y # a /\ x # a /\ y # x
+               /\ case = [fam |-> "copy", scale |-> 0, acts |-> <<a1, a2, a3>>,
+                          want |-> IF s3 = Err THEN [err |-> TRUE, store |-> s2.st] ELSE [err |-> FALSE, store |-> s3.st]]
+Init == Single \/ Pair \/ Scaled \/ ScaledPair \/ Copy
 Next == UNCHANGED case
 Spec == Init /\ [][Next]_case
 \* frame condition of the model itself: at most the assigned locations differ from the initial store
